@@ -30,6 +30,7 @@ package main
 
 import (
 	"context"
+	"errors"
 	"fmt"
 	"math/big"
 	"math/rand"
@@ -296,9 +297,18 @@ func (e *ex) possible(log []rec, now int64, bound int64) bool {
 
 // ---------------------------------------------------------------------------------- runner
 
-type effect struct{ n int64 }
+type effect struct {
+	n     int64
+	fails bool // the side effect reports a failure (an unreachable webhook): it has still been executed, once
+}
 
-func (e *effect) Exec() error { atomic.AddInt64(&e.n, 1); return nil }
+func (e *effect) Exec() error {
+	atomic.AddInt64(&e.n, 1)
+	if e.fails {
+		return errors.New("side effect failed")
+	}
+	return nil
+}
 
 type request struct {
 	start   int64
@@ -322,10 +332,16 @@ const waitLimit = 10 * time.Second
 
 func nowNS() int64 { return clock.Now().UTC().UnixNano() }
 
-func (r *runner) arrive() (pass bool, err error) {
+func (r *runner) arrive(abandoned bool) (pass bool, err error) {
 	rq := &request{start: nowNS(), release: make(chan int, 1), done: make(chan struct{}, 1)}
 	req := httptest.NewRequest(http.MethodGet, "http://example.com/", nil)
-	req = req.WithContext(context.WithValue(req.Context(), reqKey{}, rq))
+	ctx := context.WithValue(req.Context(), reqKey{}, rq)
+	if abandoned {
+		var cancel func()
+		ctx, cancel = context.WithCancel(ctx)
+		cancel()
+	}
+	req = req.WithContext(ctx)
 	w := httptest.NewRecorder()
 	go func() {
 		r.cb.ServeHTTP(w, req)
@@ -467,7 +483,7 @@ func (c *cbComp) Run(h *hlib.History) ([]hlib.Mon, bool) {
 	total := t0
 	for _, op := range h.Ops { // validate before touching anything
 		switch {
-		case len(op) == 2 && op[0] == 0:
+		case len(op) == 2 && (op[0] == 0 || op[0] == 6):
 		case len(op) >= 4 && op[0] == 1 && op[1] >= 0 && op[2] >= 100 && op[2] <= 999:
 		case len(op) == 2 && op[0] == 2 && op[1] >= 0:
 			if total = satAdd(total, op[1]); total > 9000000000*second {
@@ -488,7 +504,11 @@ func (c *cbComp) Run(h *hlib.History) ([]hlib.Mon, bool) {
 	}
 
 	defer clock.Freeze(time.Unix(0, t0).UTC()).Unfreeze()
-	r := &runner{entered: make(chan *request), onTripped: &effect{}, onStandby: &effect{}}
+	failing := (fb+recD+cp)%3 == 0 // a third of the breakers have side effects that report a failure
+	if failing {
+		hlib.Count("breakers_with_failing_side_effects", 1)
+	}
+	r := &runner{entered: make(chan *request), onTripped: &effect{fails: failing}, onStandby: &effect{fails: failing}}
 	next := http.HandlerFunc(func(w http.ResponseWriter, req *http.Request) {
 		rq := req.Context().Value(reqKey{}).(*request)
 		r.entered <- rq
@@ -551,8 +571,8 @@ func (c *cbComp) Run(h *hlib.History) ([]hlib.Mon, bool) {
 		op := h.Ops[step]
 		now := nowNS()
 		switch op[0] {
-		case 0: // Arrive
-			pass, err := r.arrive()
+		case 0, 6: // Arrive (6: by a request whose context is already cancelled: the client has given up, the breaker decides the same)
+			pass, err := r.arrive(op[0] == 6)
 			if err != nil {
 				mon("C05", step, "arrival: %v", err)
 				return mons, true
@@ -1065,7 +1085,7 @@ func (c *cbComp) Gen(rng *rand.Rand, idx int, tier string, targeted bool) hlib.H
 		}
 		return okCodes[rng.Intn(len(okCodes))]
 	}
-	arrive := func() { h.Ops = append(h.Ops, []int64{0, 2}) }
+	arrive := func() { h.Ops = append(h.Ops, []int64{hlib.Pick(rng, 0, 0, 0, 0, 0, 0, 6), 2}) }
 	together := func() { h.Ops = append(h.Ops, []int64{4, int64(2 + rng.Intn(23))}) }
 	complete := func() { h.Ops = append(h.Ops, []int64{1, int64(rng.Intn(8)), code(), 2}) }
 	tick := func(d int64) {
@@ -1177,8 +1197,11 @@ func (c *cbComp) Describe(h *hlib.History) interface{} {
 				s += fmt.Sprintf(" -> %d passed on, %s, onTripped=%d onStandby=%d", obs[0], name(obs[1]), obs[2], obs[3])
 			}
 			ops = append(ops, s)
-		case 0:
+		case 0, 6:
 			s := "Arrive"
+			if op[0] == 6 {
+				s = "Arrive(context already cancelled)"
+			}
 			if len(obs) == 4 {
 				s += fmt.Sprintf(" -> %s, %s, onTripped=%d onStandby=%d", []string{"pass", "fallback"}[obs[0]&1], name(obs[1]), obs[2], obs[3])
 			}
@@ -1212,7 +1235,7 @@ func (c *cbComp) Nontrivial(h *hlib.History) string {
 		obs := h.Obs[i]
 		var cur int64
 		switch {
-		case op[0] == 0 && len(obs) == 4:
+		case (op[0] == 0 || op[0] == 6) && len(obs) == 4:
 			cur = obs[1]
 			if obs[0] == 0 {
 				pass++
